@@ -93,7 +93,7 @@ def sar_transition_points(bits, vmax, ks):
     return pts
 
 
-def gen_case(r, kind, bits, rng_v, dense=False):
+def gen_case(r, kind, bits, rng_v, dense=False, frame=None):
     vmin, vmax = rng_v
     span = vmax - vmin
     M = 2 ** bits - 1
@@ -122,8 +122,30 @@ def gen_case(r, kind, bits, rng_v, dense=False):
         # the SAR loop costs `bits` float steps per voltage inside Coq: thin the frame, keep the ends
         keep = sorted(set([0, 1, len(xs) - 2, len(xs) - 1] + r.sample(range(len(xs)), 16)))
         xs = [xs[i] for i in keep]
+    frame = r.choices(["float64", "float32", "float16"], [14, 5, 1])[0] if frame is None else frame
+    if frame != "float64":
+        # narrow frames: numpy then computes in the frame's own precision. Only settings that are meaningful
+        # in that precision are generated (range ends distinct and far from underflow, no intermediate
+        # overflow): otherwise fall back to a float64 frame.
+        import numpy as np
+        lim = {"float32": (1e-3, 1e30, 64), "float16": (1e-2, 16.0, 11)}[frame]
+        ok = (math.isfinite(span) and lim[0] <= span <= lim[1] and abs(vmin) <= lim[1] and bits <= lim[2]
+              and float(np.dtype(frame).type(vmin)) < float(np.dtype(frame).type(vmax)))
+        if not ok:
+            frame = "float64"
+    if frame != "float64":
+        import numpy as np
+        with np.errstate(all="ignore"):
+            arr = np.array(xs, dtype=float).astype(frame).astype(float)
+        seen_b, xs2 = set(), []
+        for v in arr.tolist():           # values exactly representable in the frame's type, still sorted
+            b = struct.pack(">d", v)
+            if b not in seen_b:
+                seen_b.add(b)
+                xs2.append(v)
+        xs = xs2
     return dict(kind=kind, bits=bits, vmin=hexf(vmin), vmax=hexf(vmax), xs=[hexf(x) for x in xs],
-                path=r.choice(["model", "func"]))
+                path=r.choice(["model", "func"]), frame=frame)
 
 
 def gen_cases(ctx: Ctx, budget: int):
@@ -131,7 +153,7 @@ def gen_cases(ctx: Ctx, budget: int):
     cases = []
     # every resolution at least once per converter kind (61 widths): the band structure of the dtype
     for bits in range(4, 65):
-        cases.append(gen_case(r, "simple", bits, RANGES_FIXED[bits % len(RANGES_FIXED)]))
+        cases.append(gen_case(r, "simple", bits, RANGES_FIXED[bits % len(RANGES_FIXED)], frame="float64"))
         cases.append(gen_case(r, "simple", bits, gen_range(r)))
     for bits in range(4, 65):
         cases.append(gen_case(r, "sar", bits, (0.0, r.choice([1.0, 8.0, 3.3, 5.0, 10.0, r.uniform(0.1, 20)]))))
@@ -161,7 +183,7 @@ def exhaustive_cases(ctx: Ctx, max_bits: int):
                     if kind == "sar" and vmin != 0.0:
                         continue
                     cases.append(dict(kind=kind, bits=bits, vmin=hexf(vmin), vmax=hexf(vmax),
-                                      xs=[hexf(x) for x in pts], path="func"))
+                                      xs=[hexf(x) for x in pts], path="func", frame="float64"))
     return cases
 
 
@@ -177,8 +199,9 @@ def emit_case(c, obs) -> str:
         o = "None"
     xs = core.clist(bf(float.fromhex(h)) for h in c["xs"])
     tw = "None" if "twin" not in obs else f"(Some {core.clist(str(v) for v in obs['twin'])})"
+    ex = core.cbool(c.get("frame", "float64") == "float64")
     return (f"{{| kind := {KIND[c['kind']]}; bits := {c['bits']}; vmin := {bf(float.fromhex(c['vmin']))}; "
-            f"vmax := {bf(float.fromhex(c['vmax']))}; xs := {xs}; observed := {o}; twin := {tw} |}}")
+            f"vmax := {bf(float.fromhex(c['vmax']))}; xs := {xs}; observed := {o}; twin := {tw}; exact := {ex} |}}")
 
 
 def emit_file(pairs) -> str:
@@ -241,8 +264,13 @@ def to_violation(c, obs) -> Violation:
         case["xs_float"] = [float.fromhex(h) for h in case["xs"]]
         observed = dict(width=obs["width"], codes=[obs["codes"][j] for j in idx])
     bits = c["bits"]
-    band = "4..53" if bits <= 53 else ("54..63" if bits <= 63 else "64")
-    sig = dict(clause=clause, kind=c["kind"], bits_band=band, **extra)
+    frame = c.get("frame", "float64")
+    mant = {"float64": 53, "float32": 24, "float16": 11}[frame]
+    if frame == "float64" or c["kind"] != "simple":      # the SAR accumulator is float64 whatever the frame
+        band = "4..53" if bits <= 53 else ("54..63" if bits <= 63 else "64")
+    else:
+        band = f"<={mant}" if bits <= mant else f">{mant}"
+    sig = dict(clause=clause, kind=c["kind"], bits_band=band, frame=frame, **extra)
     return Violation(clause=clause, case=case, observed=observed,
                      expected=f"codes in 0..2^{bits}-1, sorted, 0 at/below vmin, 2^{bits}-1 at/above vmax",
                      what=f"{c['kind']} ADC bits={bits} range=({float.fromhex(c['vmin'])!r}, "
@@ -281,6 +309,7 @@ def correspondence(ctx: Ctx, cases, tag="c") -> tuple[list, list]:
         ctx.dist("bits_band", "4..16" if c["bits"] <= 16 else "17..32" if c["bits"] <= 32 else
                  "33..53" if c["bits"] <= 53 else "54..64")
         ctx.dist("path", c.get("path"))
+        ctx.dist("frame", c.get("frame", "float64"))
     return mism, viol, pairs
 
 
@@ -320,7 +349,7 @@ def run(ctx: Ctx):
     ctx.cov["disagreements_checked"] = len(mism)
     ctx.cov["exhaustive"] = False
     for c, o in pairs[:3]:
-        ctx.sample(dict(case={k: c[k] for k in ("kind", "bits", "vmin", "vmax", "path")},
+        ctx.sample(dict(case={k: c.get(k) for k in ("kind", "bits", "vmin", "vmax", "path", "frame")},
                         xs=c["xs"][:5], codes=o.get("codes", [])[:5], n=len(c["xs"])))
     for c, o in viol:
         ctx.violations.append(to_violation(c, o))
@@ -361,7 +390,7 @@ def replay(ctx: Ctx, rp: dict) -> int:
         print(f"replay names a {rp.get('kind')} that no longer checks: {rp.get('no_longer_checks')}")
         print(rp.get("detail", ""))
         return 1
-    case = {k: case[k] for k in ("kind", "bits", "vmin", "vmax", "xs", "path") if k in case}
+    case = {k: case[k] for k in ("kind", "bits", "vmin", "vmax", "xs", "path", "frame") if k in case}
     obs = core.run_driver(ctx, "c16", [case], workers=1)[0]
     print("case:", case)
     print("implementation now returns:", obs)
